@@ -25,8 +25,10 @@ preceded by a virtual delay:
     ['requeue', k, dt] ['wait', dt]
     ['peerfail', k, dt]                the peer answers PeerTransferQueueFailed for download k (`state.fail(reason)`, cancels nothing)
     ['upfail', k, dt]                  the peer sends PeerUploadFailed for download k (`remotely_queued = False` + cycle request)
-    ['block'|'unblock', u, dt] ['unshare'|'reshare', k, dt]   the user changes the block list / the shares: the real
-                                       `manage_shares_changed` re-evaluates every upload (monitor-only cases, no model)
+    ['block'|'unblock', u, then?, dt] ['unshare'|'reshare', k, then?, dt]   the user changes the block list / the shares:
+                                       the real `manage_shares_changed` re-evaluates every upload (monitor-only cases, no
+                                       model); `then` (optional) = [[k, abort|pause|remove, n], ...]: that call is made n loop
+                                       iterations later, i.e. while the re-evaluation is being carried out
 
 Case options: `teardown` = loop iterations a CANCELLED network step needs to unwind, `exec_delay` = loop iterations an
 executor call (aiofiles: removal of the local file under the state lock, ...) takes; both widen the window between the
@@ -142,6 +144,18 @@ class _Run:
                     self.ev.append(('tend', name, out))
             return wrapped
 
+        orig_shares = mgr.manage_shares_changed
+
+        async def shares_changed():
+            # the re-evaluation of the uploads after a block list / shares change: its transitions only run in later
+            # loop iterations; logged when all of them are through
+            try:
+                await orig_shares()
+            finally:
+                self.ev.append(('shares-done', 'done', [i for i, x in enumerate(rig.transfers) if x.is_upload()],
+                                len(rig.log)))
+
+        mgr.manage_shares_changed = shares_changed
         mgr._queue_remotely = wrap_coro(mgr._queue_remotely, 'Q')
         mgr._initialize_upload = wrap_coro(mgr._initialize_upload, 'T')
         mgr._initialize_download = wrap_coro(mgr._initialize_download, 'T')
@@ -172,6 +186,40 @@ class _Run:
     async def poke(self):
         from aioslsk.protocol.messages import AddUser
         await self.mgr._on_add_user(AddUser.Response('nobody', exists=False), None)
+
+    async def _do_call(self, k: int, c: str):
+        """abort / pause / remove of transfer k, from the first step to the return (events `call`, `resume` / `call-refused`)"""
+        from aioslsk.exceptions import InvalidStateTransition, TransferNotFoundError
+        mgr, rig = self.mgr, self.rig
+        t = rig.transfers[k]
+        self.pending_call[k] = c
+        self.ev.append(('call', k, c, t.state.VALUE.name, len(self.live_tasks().get(k, [])), len(rig.log)))
+        try:
+            if c == 'abort':
+                await mgr.abort(t)
+            elif c == 'pause':
+                await mgr.pause(t)
+            else:
+                await mgr.remove(t)
+        except (InvalidStateTransition, TransferNotFoundError):
+            self.ev.append(('call-refused', k, c))
+            return
+        finally:
+            self.pending_call.pop(k, None)
+        self.quiet[k] = True
+        self.ev.append(('resume', k, c, _fields(t), len(rig.log)))
+
+    def _then_calls(self, then: list):
+        async def later(k, c, n):
+            for _ in range(n):
+                await asyncio.sleep(0)
+            if k >= len(self.rig.transfers) or k in self.pending_call or self.rig.transfers[k] not in self.mgr.transfers:
+                return
+            self.ev.append(('op', 'call'))
+            await self._do_call(k, c)
+
+        for k, c, n in then:
+            self.calls.append(asyncio.ensure_future(later(k, c, n)))
 
     async def perform(self, body: list):
         from aioslsk.exceptions import InvalidStateTransition, TransferNotFoundError
@@ -219,6 +267,7 @@ class _Run:
             self.ev.append(('shares', kind, [i for i, x in enumerate(rig.transfers) if x.username == u and x.is_upload()],
                             len(rig.log)))
             await rig.bus.emit(BlockListChangedEvent({u: (old, new)}))
+            self._then_calls(body[2] if len(body) > 2 else [])
             return
         if kind in ('unshare', 'reshare'):
             from aioslsk.events import ScanCompleteEvent
@@ -230,6 +279,7 @@ class _Run:
             self.ev.append(('shares', kind, [i for i, x in enumerate(rig.transfers)
                                              if x.remote_path == t.remote_path and x.is_upload()], len(rig.log)))
             await rig.bus.emit(ScanCompleteEvent(0, 0))
+            self._then_calls(body[2] if len(body) > 2 else [])
             return
         k = body[1]
         if k >= len(rig.transfers):
@@ -327,23 +377,7 @@ class _Run:
             if k in self.pending_call or t not in mgr.transfers:
                 return
 
-            async def do_call():
-                self.pending_call[k] = c
-                self.ev.append(('call', k, c, t.state.VALUE.name, len(self.live_tasks().get(k, [])), len(rig.log)))
-                try:
-                    if c == 'abort':
-                        await mgr.abort(t)
-                    elif c == 'pause':
-                        await mgr.pause(t)
-                    else:
-                        await mgr.remove(t)
-                except (InvalidStateTransition, TransferNotFoundError):
-                    self.ev.append(('call-refused', k, c))
-                    return
-                finally:
-                    self.pending_call.pop(k, None)
-                self.quiet[k] = True
-                self.ev.append(('resume', k, c, _fields(t), len(rig.log)))
+            do_call = lambda: self._do_call(k, c)
 
             async def poker(n):
                 for _ in range(n):
@@ -700,12 +734,13 @@ def _monitor(case: dict, impl: dict) -> list[Violation]:
         for j in range(i + 1, len(ev)):
             x = ev[j]
             # the window ends at the next user / peer action on k.  A change of the block list / the shares is a user
-            # action on the uploads it covers, EXCEPT for an upload the user aborted (the user's abort is not undone by
+            # action on the uploads it covers (also one made just before the call, whose re-evaluation is still being
+            # carried out: `shares-done`), EXCEPT for an upload the user aborted (the user's abort is not undone by
             # blocking / unblocking the peer or unsharing / resharing the file) or removed
             if x[0] in ('requeue', 'call', 'preq', 'peerfail', 'upfail') and x[1] == k:
                 end = j
                 break
-            if x[0] == 'shares' and k in x[2] and c == 'pause':
+            if x[0] in ('shares', 'shares-done') and k in x[2] and c == 'pause':
                 end = j
                 break
         # task activity for k inside (i, end)
@@ -962,13 +997,20 @@ def _gen_window_case(rng: random.Random, max_ops: int = 8) -> dict:
         ops.append(['call', k0, rng.choice(['abort', 'abort', 'abort', 'pause', 'remove']), rng.choice([None, 0, 1, 2]),
                     [], rng.choice([0.05, 0.3])])
         toggles = [('block', 'unblock', users[k0]), ('unshare', 'reshare', k0)]
+
+        def then(k):
+            # a call on an upload the change covers, 0..3 iterations into the re-evaluation
+            if rng.random() < 0.3:
+                return [[k, rng.choice(['remove', 'remove', 'abort', 'pause']), rng.randrange(0, 4)]]
+            return []
+
         for _ in range(rng.randint(1, 3)):
             a, b, arg = rng.choice(toggles)
-            ops.append([a, arg, rng.choice([0.1, 0.3, 5.0])])
+            ops.append([a, arg, then(k0), rng.choice([0.1, 0.3, 5.0])])
             if rng.random() < 0.3:
                 ops.append(['poke', rng.choice(DT)])
             if rng.random() < 0.85:
-                ops.append([b, arg, rng.choice([0.1, 0.3, 5.0])])
+                ops.append([b, arg, then(k0), rng.choice([0.1, 0.3, 5.0])])
             if rng.random() < 0.5:
                 ops.append(['net', k0, rng.choice(['transferring', 'toQueue', 'complete']), False, rng.choice([0.3, 1.0])])
         for _ in range(rng.randint(0, max_ops - 4)):
@@ -979,7 +1021,7 @@ def _gen_window_case(rng: random.Random, max_ops: int = 8) -> dict:
                             rng.choice(DT)])
             elif r < 0.6:
                 a, b, arg = rng.choice([('block', 'unblock', users[k]), ('unshare', 'reshare', k)])
-                ops.append([rng.choice([a, b]), arg, rng.choice(DT)])
+                ops.append([rng.choice([a, b]), arg, then(k), rng.choice(DT)])
             elif r < 0.75:
                 ops.append(['net', k, rng.choice(['transferring', 'toQueue', 'complete', 'fail']), False, rng.choice(DT)])
             elif r < 0.85:
@@ -1076,6 +1118,11 @@ DIRECTED = [
     {'kind': 'directed-failed-retry-delivered-preq', 'slots': 2, 'ops': [
         ['addFailed', 0, 0], ['net', 0, 'ok', False, 0.3], ['preq', 0, 0.3], ['call', 0, 'abort', 1, [['preq', 1]], 0.3],
         ['net', 0, 'ok', False, 0.3], ['wait', 1.0]]},
+    # an upload aborted because its peer was blocked is re-queued by the re-evaluation after the unblock; the user removes
+    # it while that re-evaluation is being carried out: nothing may change for it after remove returned
+    # (fixes/C06-shares-requeue-removed.md)
+    {'kind': 'directed-unblock-requeue-vs-remove', 'slots': 2, 'model': False, 'ops': [
+        ['addUpload', 0, 0], ['block', 0, [], 0.3], ['unblock', 0, [[0, 'remove', 0]], 0.3], ['wait', 1.0]]},
     # the user aborts an upload; blocking and unblocking the peer / unsharing and resharing the file must not bring it back
     {'kind': 'directed-abort-upload-block-unblock', 'slots': 2, 'model': False, 'ops': [
         ['addUpload', 0, 0], ['call', 0, 'abort', None, [], 0.3], ['block', 0, 0.3], ['unblock', 0, 0.3],
